@@ -35,7 +35,33 @@ func parserPrimitives(p *Prog) map[*ssa.Function]string {
 			out[fn] = n
 		}
 	}
+	// a match that hands back the token it consumed — (types ...TokenType) (Token, bool) — is the same primitive with a
+	// richer result; its body is verified like match's (C08/S0)
+	for _, fn := range p.ModuleFuncs() {
+		if out[fn] == "" && isTakeShaped(fn) {
+			out[fn] = "take"
+		}
+	}
 	return out
+}
+
+func isTakeShaped(fn *ssa.Function) bool {
+	if fnPkgName(fn) != "parser" || fn.Signature.Recv() == nil || !fn.Signature.Variadic() || fn.Blocks == nil {
+		return false
+	}
+	if nt := namedOf(fn.Signature.Recv().Type()); nt == nil || nt.Obj().Name() != "Parser" {
+		return false
+	}
+	ps, rs := fn.Signature.Params(), fn.Signature.Results()
+	if ps.Len() != 1 || rs.Len() != 2 {
+		return false
+	}
+	sl, ok := ps.At(0).Type().Underlying().(*types.Slice)
+	if !ok || typeStr(sl.Elem()) != "token.TokenType" {
+		return false
+	}
+	b, ok := rs.At(1).Type().Underlying().(*types.Basic)
+	return ok && b.Kind() == types.Bool && typeStr(rs.At(0).Type()) == "token.Token"
 }
 
 // parseFunctions: methods of *Parser that return (something, error) or are Parse/block — i.e. the grammar functions.
@@ -67,7 +93,7 @@ func higherOrder(fn *ssa.Function) bool {
 			return true
 		}
 	}
-	return fn.Signature.Variadic() && params.Len() > 0 && fn.Name() != "match"
+	return fn.Signature.Variadic() && params.Len() > 0 && fn.Name() != "match" && !isTakeShaped(fn)
 }
 
 // grammarFns: the parse functions that stand for a construct of the language — the instances the rules were confirmed
@@ -194,7 +220,8 @@ func (m *ParseModel) Call(mc *Machine, st *State, call ssa.CallInstruction, call
 		return nil, false
 	}
 	switch m.prim[callee] {
-	case "match":
+	case "match", "take":
+		take := m.prim[callee] == "take"
 		elems, ok := mc.SliceElems(st, args[1])
 		if !ok {
 			m.Undecided = append(m.Undecided, "match with a token list that is not a literal at "+m.p.InstrPos(in))
@@ -222,15 +249,32 @@ func (m *ParseModel) Call(mc *Machine, st *State, call ssa.CallInstruction, call
 		if len(possible) > 0 {
 			e := m.ev(in, "match", names, "true")
 			e.KV["set"] = strings.Join(possible, ",")
-			outs = append(outs, Outcome{Result: BoolV(true), Apply: func(s *State) {
+			resT := AV(BoolV(true))
+			var pe *Event
+			if take {
+				// the token handed back is the one just matched: what previous() would return now
+				tokName := "prev(match)" + valName
+				pe = m.ev(in, "previous", nil, "")
+				pe.KV["res"], pe.KV["how"] = tokName, "match"
+				resT = AV{K: KTuple, T: []AV{Sym(tokName), BoolV(true)}}
+			}
+			outs = append(outs, Outcome{Result: resT, Apply: func(s *State) {
 				m.annotate(s, e)
 				m.consumed(s, "match")
 				m.Emit(s, e)
+				if pe != nil {
+					m.annotate(s, pe)
+					m.Emit(s, pe)
+				}
 			}})
 		}
 		if !(st.Mon["la"] != "" && inSet(strings.Join(names, ","), st.Mon["la"])) {
 			e := m.ev(in, "match", names, "false")
-			outs = append(outs, Outcome{Result: BoolV(false), Apply: func(s *State) {
+			resF := AV(BoolV(false))
+			if take {
+				resF = AV{K: KTuple, T: []AV{Unk, BoolV(false)}}
+			}
+			outs = append(outs, Outcome{Result: resF, Apply: func(s *State) {
 				m.annotate(s, e)
 				s.Mon["notla"] = addSet(s.Mon["notla"], names...)
 				m.Emit(s, e)
